@@ -34,6 +34,9 @@ DataFails(o, r) ==
                                 ELSE "an index inside 0..n-1 does not yield its item (" \o g.r \o ")")
               EXCEPT !.kf = IF PastEndOnly(items, r, badIdx) THEN "C16-basic-get-list-item-past-end" ELSE "NEW"]>>)
   \o (IF r.iter.r = "ok" /\ Len(r.iter.v) = Len(items) /\ \A k \in DOMAIN items : SameVal(items[k], r.iter.v[k]) THEN <<>> ELSE <<W(r.store, "data", "iteration is not the items in insertion order")>>)
+  \o (LET Part(a, b) == LET lo == IF a < 0 THEN 0 ELSE a  hi == IF b > Len(items) THEN Len(items) ELSE b IN IF hi <= lo THEN <<>> ELSE SubSeq(items, lo + 1, hi)
+          badPart == { k \in DOMAIN r.parts : LET g == r.parts[k]  e == Part(g.a, g.b) IN ~(g.r = "ok" /\ Len(g.v) = Len(e) /\ \A i \in DOMAIN e : SameVal(e[i], g.v[i])) } IN
+      IF badPart = {} THEN <<>> ELSE <<W(r.store, "data", "iteration over a part of the list (extents) does not yield the items from its start up to its end")>>)
   \o (IF badLook = {} THEN <<>>
       ELSE LET k == CHOOSE k \in badLook : TRUE  g == r.lookup[k] IN
            <<W(r.store, "data", IF g.r \notin {"some", "none"} THEN "a symbol look-up is an error (" \o g.r \o ")"
